@@ -55,6 +55,65 @@ def gen_case(rng, cid, nev):
     return dict(id=cid, minage_ms=minage, count=count, hasfn=hasfn, events=evs)
 
 
+def gen_burst(rng, cid):
+    """schedules: a Set beyond the limit whose background prune races with removals and further Sets (not waited for);
+    after quiescence the clauses that hold for every interleaving are checked (oracle_burst)"""
+    count = rng.choice([1, 2, 3, 4, 4, 5, 8])
+    evs, v, live, n = [], 0, [], 0
+    def fresh():
+        nonlocal n
+        n += 1
+        return "b%d" % n
+    for _ in range(count):
+        v += 1
+        k = fresh()
+        live.append(k)
+        evs.append(dict(op="set", k=k, v=v, age_ms=0, fails=[]))
+    for _ in range(rng.randrange(1, 4)):
+        v += 1
+        k = fresh()
+        live.append(k)
+        evs.append(dict(op="set_nw", k=k, v=v, age_ms=0, fails=[]))
+        for x in rng.sample(live, min(len(live), rng.randrange(0, count + 2))):
+            evs.append(dict(op="delete", k=x, ok=True))
+            live.remove(x)
+        for _ in range(rng.randrange(0, 2 * count + 3)):
+            v += 1
+            k = fresh()
+            live.append(k)
+            evs.append(dict(op=rng.choice(["set", "set_nw"]), k=k, v=v, age_ms=0, fails=[]))
+    evs.append(dict(op="quiesce"))
+    # one more insertion beyond the limit, waited for
+    v += 1
+    evs.append(dict(op="set", k=fresh(), v=v, age_ms=0, fails=[]))
+    evs.append(dict(op="quiesce"))
+    return dict(id=cid, minage_ms=0, count=count, hasfn=True, events=evs, burst=True)
+
+
+def oracle_burst(ctx, case, out):
+    stored, okcalls = {}, set()
+    rep = dict(case=case, result=out["events"][-1])
+    for ev, r in zip(case["events"], out["events"]):
+        if r.get("panic"):
+            ctx.violation("cache panicked: %s" % r["panic"], rep, "C20:panic")
+            return
+        if ev["op"] in ("set", "set_nw"):
+            stored[ev["k"]] = ev["v"]
+        for c in r["calls"] or []:
+            if c["ok"]:
+                okcalls.add((c["k"], c["v"]))
+    final = set(out["events"][-1]["keys"])
+    for x, val in stored.items():
+        if x not in final and (x, val) not in okcalls:
+            ctx.violation("entry %s (value %s) left the cache without a successful cleanup (racing Set / Delete / count prune)" % (x, val), rep, "C20:removed-without-cleanup")
+            return
+    if final - set(stored):
+        ctx.violation("keys %s present but never stored" % sorted(final - set(stored)), rep, "C20:ghost")
+    if len(final) > case["count"]:
+        ctx.violation("%d entries remain after insertions beyond the limit %d although every cleanup succeeded and the cache is quiescent: count pruning stopped"
+                      % (len(final), case["count"]), rep, "C20:bound-after-race")
+
+
 def s_case(c):
     evs = []
     for i, e in enumerate(c["events"]):
@@ -177,9 +236,15 @@ def run(ctx):
         n = 1500 if ctx.tier == "quick" else 60000
         for i in range(n):
             cases.append(gen_case(ctx.rng, len(cases) + 1, ctx.rng.randrange(3, 25)))
+    bursts = []
+    if not ctx.replay:
+        for i in range(300 if ctx.tier == "quick" else 6000):
+            bursts.append(gen_burst(ctx.rng, 10000000 + i))
+    elif cases[0].get("burst"):
+        bursts, cases = cases, []
     cf, of = os.path.join(ctx.work, "cache.cases.jsonl"), os.path.join(ctx.work, "cache.out.jsonl")
     with open(cf, "w") as fh:
-        for c in cases:
+        for c in cases + bursts:
             fh.write(json.dumps(c) + "\n")
     rc, out = sh([binp, "-test.run", "TestVerifCacheDriver", "-test.count=1", "-test.timeout", "3000s"],
                  env=dict(os.environ, VERIF_CASES=cf, VERIF_OUT=of), timeout=3100)
@@ -189,6 +254,8 @@ def run(ctx):
     for line in open(of):
         o = json.loads(line)
         iouts[o["id"]] = o
+    for c in bursts:
+        oracle_burst(ctx, c, iouts[c["id"]])
     binm = ensure_model()
     p = subprocess.run([binm, "cache"], input="\n".join(s_case(c) for c in cases) + "\n", stdout=subprocess.PIPE, stderr=subprocess.PIPE, text=True, timeout=3000)
     if p.returncode != 0:
@@ -216,7 +283,7 @@ def run(ctx):
     ctx.coverage.update(dict(evaluations=len(cases), distinct_nontrivial=len({json.dumps(c["events"]) for c in cases if len(c["events"]) >= 3}),
                              rule="event sequences on the real cache.Cache (corpus %d + random over 5 keys, ages far from the expiry boundary, cleanups that succeed / fail, Set inside Delete's cleanup window, age limits 0/10min/1h, count limits 0..10); non-trivial = at least 3 events, distinct by event list" % ncorpus,
                              traces_validated_against_impl=len(cases) - nbad, correspondence_mismatches=nbad, event_kinds=ops,
-                             events=sum(len(c["events"]) for c in cases), exhaustive=False))
+                             events=sum(len(c["events"]) for c in cases), racing_burst_cases=len(bursts), exhaustive=False))
     ctx.samples = [cases[ncorpus]["events"][:5]] if len(cases) > ncorpus else [cases[0]["events"][:5]]
     ctx.assumptions = ["model = coq/Cache.v: events at the granularity of the cache's critical sections; the only unlocked window (Delete's cleanup) is modelled with a Set landing inside it",
                        "that the runtime fires time.AfterFunc and schedules the spawned pruneCount goroutine is not modelled: prunes are run through synchronous hooks (the count prune a Set starts is waited for)",
